@@ -6,6 +6,7 @@ import (
 	"fmt"
 	"go/token"
 	"go/types"
+	"os"
 	"runtime/debug"
 	"sort"
 	"strings"
@@ -310,7 +311,18 @@ func (r *FnRun) typeInvariant(v Val, t types.Type) {
 		// Go invariant: a slice with capacity has a non-nil backing array
 		r.addFact(tb.Implies(tb.SGt(x.Cap, zero), tb.Not(tb.Eq(x.Ptr, zero))))
 		if x.Elem != nil && len(r.root.knownRanges) < 16 {
-			r.root.knownRanges = append(r.root.knownRanges, [2]*Term{x.Ptr, tb.Mul(x.Cap, tb.BVI(64, r.e.sizeof(x.Elem)))})
+			dup := false
+			for _, kr := range r.root.knownRanges {
+				if kr[0] == x.Ptr {
+					dup = true
+				}
+			}
+			if !dup {
+				r.root.knownRanges = append(r.root.knownRanges, [2]*Term{x.Ptr, tb.Mul(x.Cap, tb.BVI(64, r.e.sizeof(x.Elem)))})
+				if os.Getenv("GOVC_DEBUG_MODS") != "" {
+					fmt.Fprintf(os.Stderr, "knownRange %d: %s\n", len(r.root.knownRanges), x.Ptr.Op+" "+x.Ptr.Name)
+				}
+			}
 		}
 	case Scalar:
 		// typed pointers are nil or user-space addresses
@@ -431,7 +443,12 @@ func (r *FnRun) frameObligations(fin, entry *State, env *Env) {
 			old = tb.Var("MV0:"+k, BV64)
 		}
 		if old != v {
-			r.oblige(fin, "frame", k, tb.Eq(old, v), r.fn.Pos(), "modifies: map contents unchanged", tags)
+			if fm := r.root.freshMaps[k]; len(fm) > 0 {
+				// maps made by this activation are not visible to the caller: every other map of the type is unchanged
+				r.oblige(fin, "frame", k, r.mapSameExcept(k, fm, old, v), r.fn.Pos(), "modifies: map contents unchanged (maps made by this activation aside)", tags)
+			} else {
+				r.oblige(fin, "frame", k, tb.Eq(old, v), r.fn.Pos(), "modifies: map contents unchanged", tags)
+			}
 		}
 	}
 	for k, v := range fin.Ghost {
@@ -446,6 +463,24 @@ func (r *FnRun) frameObligations(fin, entry *State, env *Env) {
 			r.oblige(fin, "frame", "ghost."+k, tb.Eq(old, v), r.fn.Pos(), "modifies: ghost "+k+" unchanged", tags)
 		}
 	}
+}
+
+// mapSameExcept: versions old and v of the maps of type key k agree on every map other than the listed fresh handles.
+func (r *FnRun) mapSameExcept(k string, fresh []freshMap, old, v *Term) *Term {
+	tb := r.tb()
+	h := tb.BoundVar("h", BV64)
+	kk := tb.BoundVar("k", BV64)
+	var notFresh []*Term
+	for _, f := range fresh {
+		notFresh = append(notFresh, tb.Ne(h, f.h))
+	}
+	cs := []*Term{tb.Eq(tb.App("maphas:"+k, BoolSort, v, h, kk), tb.App("maphas:"+k, BoolSort, old, h, kk))}
+	var ls []leaf
+	leaves(r.e.zeroVal(fresh[0].t.Elem()), "", &ls)
+	for i, l := range ls {
+		cs = append(cs, tb.Eq(tb.App(fmt.Sprintf("mapval:%s:%d", k, i), l.T.Sort, v, h, kk), tb.App(fmt.Sprintf("mapval:%s:%d", k, i), l.T.Sort, old, h, kk)))
+	}
+	return tb.Forall([]*Term{h, kk}, tb.Implies(tb.And(notFresh...), tb.And(cs...)))
 }
 
 func (r *FnRun) isLocalHeapAddr(a *Term) *Term {
@@ -680,7 +715,13 @@ func (r *FnRun) loopMods(li *loopInfo) []ModTarget {
 	sort.Slice(blocks, func(i, j int) bool { return blocks[i].Index < blocks[j].Index })
 	for _, b := range blocks {
 		for _, ins := range b.Instrs {
-			out = append(out, r.instrMods(ins, li, seenLocal, 0)...)
+			ms := r.instrMods(ins, li, seenLocal, 0)
+			if os.Getenv("GOVC_DEBUG_MODS") != "" {
+				for _, m := range ms {
+					fmt.Fprintf(os.Stderr, "loopmods loop%d: %s -> %s %s %s\n", li.Ordinal, ins.String(), m.Kind, m.Key, m.Name)
+				}
+			}
+			out = append(out, ms...)
 		}
 	}
 	return out
@@ -988,6 +1029,14 @@ func (r *FnRun) storeMods(addr ssa.Value, li *loopInfo, seenLocal map[*ssa.Alloc
 				return []ModTarget{{Kind: "BH"}}
 			}
 			return []ModTarget{{Kind: "heaptype", ObjT: sl.Elem()}}
+		}
+		if pt, ok := a.X.Type().Underlying().(*types.Pointer); ok {
+			if at, ok := pt.Elem().Underlying().(*types.Array); ok {
+				if _, isBA := isByteArray(pt.Elem()); !isBA {
+					// element of a (heap) array of non-byte elements, e.g. the varargs array of an append
+					return []ModTarget{{Kind: "heaptype", ObjT: at.Elem()}}
+				}
+			}
 		}
 		return []ModTarget{{Kind: "BH"}}
 	case *ssa.Convert:
